@@ -90,7 +90,7 @@ def mwem_pgm(data, epsilon, delta=0.0, workload=None, rounds=None, maxsize_mb = 
     for i in range(1, rounds+1):
         # [New] Only consider candidates that keep the model sufficiently small
         candidates = [cl for cl in workload if size(cliques+[cl]) <= maxsize_mb*i/rounds]
-        ax = worst_approximated(workload_answers, est, candidates, exp_eps)
+        ax = worst_approximated(workload_answers, est, candidates, exp_eps, bounded=bounded)
         print('Round', i, 'Selected', ax, 'Model Size (MB)', est.size*8/2**20)
         n = domain.size(ax)
         x = data.project(ax).datavector()
